@@ -141,7 +141,7 @@ func (h *genericContextualizer) Execute(ctx heimdall.Context, sub *subject.Subje
 	}
 
 	if h.ttl > 0 {
-		cacheKey = h.calculateCacheKey(sub, vals, payload)
+		cacheKey = h.calculateCacheKey(ctx, sub, vals, payload)
 		if entry, err := cch.Get(ctx.AppContext(), cacheKey); err == nil {
 			var cd contextualizerData
 
@@ -352,6 +352,7 @@ func (h *genericContextualizer) readResponse(ctx heimdall.Context, resp *http.Re
 }
 
 func (h *genericContextualizer) calculateCacheKey(
+	ctx heimdall.Context,
 	sub *subject.Subject,
 	values map[string]string,
 	payload string,
@@ -369,6 +370,18 @@ func (h *genericContextualizer) calculateCacheKey(
 	hash.Write(stringx.ToBytes(payload))
 	hash.Write(ttlBytes)
 	hash.Write(sub.Hash())
+
+	// the values of the forwarded headers and cookies are part of the request sent to
+	// the endpoint and may influence the response
+	for _, headerName := range h.fwdHeaders {
+		hash.Write(stringx.ToBytes(headerName))
+		hash.Write(stringx.ToBytes(ctx.Request().Header(headerName)))
+	}
+
+	for _, cookieName := range h.fwdCookies {
+		hash.Write(stringx.ToBytes(cookieName))
+		hash.Write(stringx.ToBytes(ctx.Request().Cookie(cookieName)))
+	}
 
 	// iterate in a defined order. Otherwise the key depends on the random map iteration order
 	valueNames := make([]string, 0, len(values))
